@@ -211,4 +211,19 @@ REG = {
     note="Law clauses are statistical (fixed seeds, 1e5 samples quick / 1e6 thorough; Metropolis thinned by 30). Digests are 64-bit: a collision could hide a difference with "
          "probability ~1e-16 per pair. thinning = 0 is outside the quantifier.",
     technique="TLA+ memo specification of sampling calls (no history variable) + model of the burn-in/thinning loop (TLC exhaustive) + trace validation of interleaved calls repeated on generator copies"),
+ "C20": dict(
+    engine="spec/ExportImport.tla, MC_ExportImport.tla, UnitsInit.tla, Trace_Files.tla, Big.tla; lib/units_parse.py; harness/c20.cpp, harness/units_print.cpp",
+    design_ref="DESIGN.md §4.20",
+    text="ExportImport.tla models the text file between Export_* and Import_* (lines of tokens; the reader skips lines, reads numeric tokens up to the first non-numeric one, "
+         "infers rows = lines - skipped and columns = tokens div rows): TLC proves the round trip for every shape and header length in the bounds and that skipping too few lines "
+         "never returns the table. Trace_Files drives that machine with recorded exports and imports of the real library (tables, lists, tabulated functions, multi-line headers "
+         "containing numbers, per-column units over 60 decades, values over 600 decades): lines on disk, shape, every value within six significant digits, sign. UnitsInit.tla reads "
+         "the unit definitions parsed from src/Natural_Units.cpp and (a) runs the initialisation machine in textual order (static iff no function call and all operands already "
+         "static) and checks that no dynamic initialiser reads a dynamic constant defined later, (b) expands every definition to an exact decimal coefficient (arbitrary precision) "
+         "times a power of GeV and compares it with the SI definition table written in the specification (Joule, Newton, Watt, Pa, erg, dyne, Volt, Ohm, Tesla, Hz, time, length, "
+         "area, mass multiples...). The same constants are printed by programs built with g++ and clang++ at -O0 and -O2: non-zero, within 4 ulp of their defining product formed "
+         "at run time, bit-identical in all four builds. All six In_Units overloads are checked element-wise against the scalar one and against Round.",
+    note="Only the two installed compilers are covered. Definitions using M_PI, sqrt or non-integer powers are checked for initialisation order only. Values whose quotient by the unit "
+         "leaves the normal range of doubles are not generated.",
+    technique="TLA+ file machine (TLC exhaustive over shapes/headers) with trace validation of recorded round trips + TLA+ initialisation-order machine and exact arbitrary-precision unit algebra over the parsed source + four-build comparison of the constants"),
 }
